@@ -2582,3 +2582,233 @@ func (ff *FuncFacts) PathSearch(from ast.Node, init int, step func(n ast.Node, s
 	}
 	return walk(fb, fi+1, init)
 }
+
+// conjuncts splits a condition into the operands of its top-level &&.
+func conjuncts(e ast.Expr) []ast.Expr {
+	e = unparen(e)
+	if be, ok := e.(*ast.BinaryExpr); ok && be.Op == token.LAND {
+		return append(conjuncts(be.X), conjuncts(be.Y)...)
+	}
+	return []ast.Expr{e}
+}
+
+func disjuncts(e ast.Expr) []ast.Expr {
+	e = unparen(e)
+	if be, ok := e.(*ast.BinaryExpr); ok && be.Op == token.LOR {
+		return append(disjuncts(be.X), disjuncts(be.Y)...)
+	}
+	return []ast.Expr{e}
+}
+
+// condOf returns the branch condition ending block b, if b is a two-way
+// branch on an if/for/switch-case condition.
+func (ff *FuncFacts) condOf(b *cfg.Block) ast.Expr {
+	if len(b.Succs) != 2 || len(b.Nodes) == 0 {
+		return nil
+	}
+	e, ok := b.Nodes[len(b.Nodes)-1].(ast.Expr)
+	if !ok {
+		return nil
+	}
+	switch par := ff.eng.p.Parent(ff.fs.File, e).(type) {
+	case *ast.IfStmt:
+		if par.Cond == e {
+			return e
+		}
+	case *ast.ForStmt:
+		if par.Cond == e {
+			return e
+		}
+	case *ast.CaseClause:
+		if sw, ok := ff.eng.p.Parent(ff.fs.File, ff.eng.p.Parent(ff.fs.File, par)).(*ast.SwitchStmt); ok && sw.Tag == nil {
+			for _, ce := range par.List {
+				if ce == e {
+					return e
+				}
+			}
+		}
+	}
+	return nil
+}
+
+// refutes reports whether taking edge #succ out of block b contradicts the
+// conjunction P (a list of signed atoms): the edge establishes the complement
+// of one atom, or it is the false edge of a condition all of whose conjuncts
+// are atoms of P, or the true edge of a condition all of whose disjuncts are
+// complements of atoms of P.
+func (ff *FuncFacts) refutes(b *cfg.Block, succ int, inP func(*Fact) bool) bool {
+	outs := ff.transfer(b, ff.blockIn[b], false)
+	if succ < len(outs) && outs[succ] != nil {
+		for _, f := range outs[succ].m {
+			if f.Op != "imp" && inP(complement(f)) {
+				return true
+			}
+		}
+	} else if succ < len(outs) && outs[succ] == nil {
+		return true
+	}
+	cond := ff.condOf(b)
+	if cond == nil {
+		return false
+	}
+	atomsOf := func(es []ast.Expr, pol bool) ([]*Fact, bool) {
+		var out []*Fact
+		for _, e := range es {
+			learnt := ff.assume(emptyState, e, pol)
+			if learnt == nil || len(learnt.m) != 1 {
+				return nil, false
+			}
+			for _, f := range learnt.m {
+				out = append(out, f)
+			}
+		}
+		return out, true
+	}
+	if succ == 1 { // false edge of a conjunction of P-atoms
+		if as, ok := atomsOf(conjuncts(cond), true); ok {
+			all := true
+			for _, a := range as {
+				if !inP(a) && !ff.blockIn[b].Has(a.key) {
+					all = false
+				}
+			}
+			if all && len(as) > 0 {
+				// at least one conjunct must really be an atom of P
+				for _, a := range as {
+					if inP(a) {
+						return true
+					}
+				}
+			}
+		}
+	}
+	if succ == 0 { // true edge of a disjunction of complements
+		if as, ok := atomsOf(disjuncts(cond), true); ok && len(as) > 1 {
+			all := true
+			for _, a := range as {
+				if !inP(complement(a)) {
+					all = false
+				}
+			}
+			if all {
+				return true
+			}
+		}
+	}
+	return false
+}
+
+// ReachableNotRefuting reports whether node `to` is reachable from the entry
+// along a path on which no edge refutes the conjunction P, i.e. whether the
+// node can execute while P holds.  It returns a witness: the branch
+// positions along the path.
+func complement(f *Fact) *Fact {
+	c := *f
+	c.Pos = !f.Pos
+	c.key = negKey(f)
+	return &c
+}
+
+// factsConj turns a list of signed atoms into a conjunction matcher.
+func factsConj(P ...*Fact) func(*Fact) bool {
+	pk := map[string]bool{}
+	for _, a := range P {
+		pk[a.key] = true
+	}
+	return func(f *Fact) bool { return pk[f.key] }
+}
+
+func (ff *FuncFacts) ReachableNotRefuting(to ast.Node, P func(*Fact) bool) (bool, []string) {
+	tb, _ := ff.blockOf(to)
+	if tb == nil || len(ff.graph.Blocks) == 0 {
+		return false, nil
+	}
+	seen := map[*cfg.Block]bool{}
+	var path []string
+	var walk func(b *cfg.Block) bool
+	walk = func(b *cfg.Block) bool {
+		if b == tb {
+			return true
+		}
+		if seen[b] {
+			return false
+		}
+		seen[b] = true
+		for i, s := range b.Succs {
+			if !s.Live {
+				continue
+			}
+			if len(b.Succs) == 2 && ff.refutes(b, i, P) {
+				continue
+			}
+			n := len(path)
+			if c := ff.condOf(b); c != nil {
+				path = append(path, fmt.Sprintf("%s:%v", ff.eng.p.PosStr(c.Pos()), i == 0))
+			}
+			if walk(s) {
+				return true
+			}
+			path = path[:n]
+		}
+		return false
+	}
+	ok := walk(ff.graph.Blocks[0])
+	return ok, path
+}
+
+// DominatedByNode reports whether every path from the entry to `to` executes
+// the CFG node containing `by`.
+func (ff *FuncFacts) DominatedByNode(to, by ast.Node) bool {
+	tb, ti := ff.blockOf(to)
+	bb, bi := ff.blockOf(by)
+	if tb == nil || bb == nil {
+		return false
+	}
+	if tb == bb {
+		return bi <= ti
+	}
+	seen := map[*cfg.Block]bool{}
+	var walk func(b *cfg.Block) bool
+	walk = func(b *cfg.Block) bool {
+		if b == bb {
+			return false
+		}
+		if b == tb {
+			return true
+		}
+		if seen[b] {
+			return false
+		}
+		seen[b] = true
+		for _, s := range b.Succs {
+			if s.Live && walk(s) {
+				return true
+			}
+		}
+		return false
+	}
+	return !walk(ff.graph.Blocks[0])
+}
+
+// localVar finds a local variable (or parameter) of the function by name.
+func (fs *FuncSrc) localVar(name string) types.Object {
+	var out types.Object
+	info := fs.Pkg.TypesInfo
+	for _, p := range fs.params(info) {
+		if p != nil && p.Name() == name {
+			return p
+		}
+	}
+	ast.Inspect(fs.Body(), func(n ast.Node) bool {
+		if _, ok := n.(*ast.FuncLit); ok {
+			return false
+		}
+		if id, ok := n.(*ast.Ident); ok && id.Name == name && out == nil {
+			if o, ok := info.Defs[id].(*types.Var); ok {
+				out = o
+			}
+		}
+		return true
+	})
+	return out
+}
